@@ -15,6 +15,11 @@ any programs, any schedule; no poll timeout, so "without waiting for the poll ti
 statements about states in which no thread can move.  The places of the flag reset, the lock in the destructor,
 the `while` around `cond_.wait()`, the notification in `threadFunc` and the wake condition of `quit()` are
 definitions of `Generated/Loop.lean`; the pool's guards, subscripts and cursor update are `Generated/Pool.lean`.
+
+A plain loop may be entered again after `loop()` has returned (`again` segments of the owner's program, C04): `qreq`,
+`selfQuit` speak about ONE run of `loop()` (from `loop:entry` to `returned`); a flag store made after the return — the
+return re-armed `quit_` — is a request to the next run (`relaunch`: `qreq := quit`).  So `quit_not_lost`,
+`quit_ends_loop`, `quit_in_callback`, `returns_only_after_quit` hold of every run.  An `EventLoopThread` calls `loop()` once.
 -/
 namespace MuduoVerif.C05
 open MuduoVerif.Loop MuduoVerif.Gen.Loop
@@ -212,7 +217,7 @@ the new thread's start-up. -/
 theorem clean_shutdown (wl : Bool) (tbl dtbl : TaskId → List Sub) (pre body tail : List Sub) (sched : List Nat)
     (htbl : ∀ x, userOnly (tbl x) = true) (hdtbl : ∀ x, userOnly (dtbl x) = true) (hpre : userOnly pre = true)
     (hbody : userOnly body = true) (htail : tail = [] ∨ tail = [.destroy]) :
-    let s := run (init true wl tbl dtbl pre (fun k => if k = 0 then .startLoop :: (body ++ tail) else [])) sched
+    let s := run (init true wl tbl dtbl pre [] (fun k => if k = 0 then .startLoop :: (body ++ tail) else [])) sched
     Stuck s →
       (s.thr 0).pc = .idle ∧ (s.thr 0).prog = [] ∧ s.uafDtor = false ∧
       ((tail = [.destroy] ∧ s.phase = .dead ∧ s.qreq = true) ∨ (tail = [] ∧ IdleInPoll s)) := by
@@ -263,7 +268,7 @@ theorem pool_all_loops (n k h : Nat) :
 /-- `EventLoopThread`: the owner starts the loop, queues task 1 and destroys the object; under this schedule the
 task runs, the destructor's `quit()` ends the loop, the loop object is destroyed and the join returns -/
 example :
-    let s := run (init true false (fun _ => []) (fun _ => []) [] (fun k => if k = 0 then [.startLoop, .queue 1, .destroy] else []))
+    let s := run (init true false (fun _ => []) (fun _ => []) [] [] (fun k => if k = 0 then [.startLoop, .queue 1, .destroy] else []))
                  [0, 1, 1, 1, 1, 1, 0, 0, 0, 0, 0, 0, 0, 1, 1, 1, 1, 1, 1, 1, 1, 1, 1, 1, 1, 1, 1, 0]
     s.executed = [1] ∧ s.phase = .dead ∧ s.uafDtor = false ∧ (s.thr 0).pc = .idle ∧ (s.thr 0).prog = [] ∧
     s.qreq = true := by
@@ -272,7 +277,7 @@ example :
 /-- the hypotheses of `clean_shutdown` are satisfiable and its conclusion is reached: the run above is such a program
 (`body = [queue 1]`, `tail = [destroy]`) and ends in a state where nobody can move -/
 example :
-    let s := run (init true false (fun _ => []) (fun _ => []) [] (fun k => if k = 0 then .startLoop :: ([.queue 1] ++ [.destroy]) else []))
+    let s := run (init true false (fun _ => []) (fun _ => []) [] [] (fun k => if k = 0 then .startLoop :: ([.queue 1] ++ [.destroy]) else []))
                  [0, 1, 1, 1, 1, 1, 0, 0, 0, 0, 0, 0, 0, 1, 1, 1, 1, 1, 1, 1, 1, 1, 1, 1, 1, 1, 1, 0]
     enabled s 0 = false ∧ enabled s 1 = false ∧ s.phase = .dead ∧ userOnly [Sub.queue 1] = true := by
   decide +kernel
@@ -281,7 +286,7 @@ example :
 (`dtbl`, `userOnly`); the owner starts the loop, queues task 1 and destroys the object: both tasks run — task 2 is
 queued while the batch is destroyed, inside `doPendingFunctors` — the loop ends, the join returns, nobody can move -/
 example :
-    let s := run (init true false (fun _ => []) (fun t => if t = 1 then [.queue 2] else []) []
+    let s := run (init true false (fun _ => []) (fun t => if t = 1 then [.queue 2] else []) [] []
                     (fun k => if k = 0 then .startLoop :: ([.queue 1] ++ [.destroy]) else []))
                  [0, 0, 1, 1, 1, 1, 0, 0, 0, 0, 0, 0, 0, 0, 1, 1, 1, 1, 1, 1, 1, 1, 1, 1, 1, 1, 1, 1, 1, 1, 1, 1, 0]
     s.executed = [1, 2] ∧ s.phase = .dead ∧ s.uafDtor = false ∧ enabled s 0 = false ∧ enabled s 1 = false ∧
@@ -291,16 +296,16 @@ example :
 /-- the thread-init callback quits the loop and the loop thread runs to its end before the owner looks: `startLoop()`
 returns NULL (it used to wait forever), the owner's destructor joins -/
 example :
-    let s := run (init true false (fun _ => []) (fun _ => []) [.quit] (fun k => if k = 0 then [.startLoop, .destroy] else []))
+    let s := run (init true false (fun _ => []) (fun _ => []) [.quit] [] (fun k => if k = 0 then [.startLoop, .destroy] else []))
                  [0, 1, 1, 1, 1, 1, 1, 1, 1, 1, 1, 1, 0, 0, 0, 0]
     s.phase = .dead ∧ s.finished = true ∧ (s.thr 0).pc = .idle ∧ (s.thr 0).prog = [] ∧ s.uafDtor = false ∧
-    (step (run (init true false (fun _ => []) (fun _ => []) [.quit] (fun k => if k = 0 then [.startLoop, .destroy] else []))
+    (step (run (init true false (fun _ => []) (fun _ => []) [.quit] [] (fun k => if k = 0 then [.startLoop, .destroy] else []))
             [0, 1, 1, 1, 1, 1, 1, 1, 1, 1, 1, 1]) 0).out = some .startedNull := by
   decide +kernel
 
 /-- a `quit()` that completes before `loop()` starts: the flag is still set when the loop tests it -/
 example :
-    let s := run (init false false (fun _ => []) (fun _ => []) [] (fun k => if k = 1 then [.quit] else [])) [1, 1, 0]
+    let s := run (init false false (fun _ => []) (fun _ => []) [] [] (fun k => if k = 1 then [.quit] else [])) [1, 1, 0]
     s.qreq = true ∧ s.quit = true ∧ s.phase = .entered := by
   decide
 
